@@ -1,14 +1,15 @@
 #!/bin/bash
-# tools/seed_round.sh <round-dir> <prop> [extra checks...]: collect, verify and evaluate the two changes of one sub-agent
+# tools/seed_round.sh <round-dir> <prefix> <prop> [extra checks...]: collect, verify and evaluate the two changes of one sub-agent
+# (prefix: r2, r3, ... -> seeded/<prefix>-<prop>-m<n>)
 set -u
-rd=$1; p=$2; shift 2
+rd=$1; pre=$2; p=$3; shift 3
 cd /verif
 for m in m1 m2; do
   src=$rd/$p/out/$m
-  [ -f $src/patch.diff ] || { echo "== r2-$p-$m missing"; continue; }
-  d=seeded/r2-$p-$m; mkdir -p $d; cp $src/patch.diff $src/demo_test.go $src/meta.json $d/ 2>/dev/null
+  [ -f $src/patch.diff ] || { echo "== $pre-$p-$m missing"; continue; }
+  d=seeded/$pre-$p-$m; mkdir -p $d; cp $src/patch.diff $src/demo_test.go $src/meta.json $d/ 2>/dev/null
   v=$(tools/seed_verify.sh $d 2>&1 | tail -1)
-  echo "== r2-$p-$m verify: $v"
+  echo "== $pre-$p-$m verify: $v"
   case "$v" in *"suite-with-change=pass demo-with-change=fail demo-without-change=pass"*) ;; *) continue;; esac
   tools/seed_run.sh $d $p "$@" 2>&1 | grep -E "^==|VIOLATION|UNREPRO" | cut -c1-200
 done
